@@ -147,6 +147,8 @@ def verify_function(key, table, fields, monitor=None, timeout_ms=None, cex_fn=No
     ex.dead_paths = []
     st = State()
     st.assume(ALLOC0 > 0)
+    if getattr(table, "entry_setup", None) is not None:
+        table.entry_setup(st)
     try:
         sig = inspect.signature(env.real_fn)
         args = {}
@@ -182,6 +184,7 @@ def verify_function(key, table, fields, monitor=None, timeout_ms=None, cex_fn=No
         if solve.check_sat(st.pc) != "sat":
             res.status, res.message = "error", "precondition is not satisfiable (vacuous contract)"
             return res
+        ex.heap0_ref = st.heap0
         outs = ex.run(st)
     except Unsupported as e:
         res.status, res.message = "unsupported", str(e)
